@@ -5,6 +5,7 @@
 //! 2 = machinery failure (never a verdict).
 
 mod c01;
+mod genfam;
 mod c03;
 mod c05;
 mod c08;
@@ -36,6 +37,13 @@ fn main() {
     }
     if args[1] == "--c15-seed" {
         c15::seed_child();
+        return;
+    }
+    if args[1] == "--gen-pager-family" {
+        if args.len() < 4 {
+            usage();
+        }
+        genfam::main(&args[2], &args[3]);
         return;
     }
     if args[1] == "--vbuild" {
